@@ -94,6 +94,7 @@ class Runner:
         self.max_len = max_len
         self.timeout = timeout
         self.thorough = thorough
+        self.tainted = False
         self.stats = {'ops': {}, 'errors': {}, 'bounds_on_cp': 0, 'bounds_adj_cp': 0, 'bounds': 0,
                       'conflicts': 0, 'text_len': {}, 'timeouts': 0}
         signal.signal(signal.SIGALRM, _alarm)
@@ -219,6 +220,8 @@ class Runner:
         before = [(v, O.Snap(v)) for v in self.live if not any(v is w for w in writes)]
         res = fn()
         viol = []
+        if isinstance(res, tuple) and len(res) == 2 and res[0] == 'ok':
+            viol += self.alias_check(res[1], writes)
         for v, s in before:
             try:
                 now = O.Snap(v)
@@ -229,6 +232,43 @@ class Runner:
             if not s.same_as(now):
                 viol.append(('C08', 'frame', 'a value that was not written changed: %r -> %r' % (s.render[0], now.render[0])))
         return res, viol
+
+    @staticmethod
+    def _lists(x):
+        ids = {id(x._fmts)}
+        for p in x._fmts.values():
+            ids |= {id(p), id(p.add), id(p.rem)}
+        return ids
+
+    def alias_check(self, result, writes):
+        """C08: a result of a non-in-place operation is a new object that shares no mutable
+        structure (table, point, marker list) with any other live value; a suspected sharing is
+        confirmed by actually mutating the result and watching the other value."""
+        rs = result if isinstance(result, (list, tuple)) else [result]
+        rs = [r for r in rs if isinstance(r, self.A)]
+        viol = []
+        for r in rs:
+            if any(r is w for w in writes):
+                continue
+            for v in self.live:
+                if r is v:
+                    viol.append(('C08', 'result_is_source', 'a non-in-place method returned the receiver/argument itself'))
+                    return viol
+                if self._lists(r) & self._lists(v):
+                    before = O.Snap(v)
+                    try:
+                        n = len(r._s)
+                        for k in sorted(r._fmts):
+                            r._fmts[k].add.append(self.mod.AnsiSetting('95'))
+                            r._fmts[k].rem[:] = []
+                        changed = not before.same_as(O.Snap(v))
+                    except Exception:   # noqa
+                        changed = True
+                    if changed:
+                        viol.append(('C08', 'result_aliased', 'editing the markers of a result changed another value (shared list objects)'))
+                        self.tainted = True
+                        return viol
+        return viol
 
     def after_error(self, x, snap, outcome):
         """C09: after a raised error the receiver is unchanged"""
@@ -1345,7 +1385,10 @@ class Runner:
                 self.op_apply()
         names = self.OPS
         ws = [self.BASE_W[n] * self.weights.get(n, 1) for n in names]
+        self.tainted = False
         for _ in range(length):
+            if self.tainted:
+                break
             nm = self.rng.choices(names, ws)[0]
             getattr(self, 'op_' + nm)()
             for v in self.live:
